@@ -155,7 +155,7 @@ type detProgram struct {
 func C06(tier string) {
 	run := core.NewRun("C06", tier)
 	var progs []detProgram
-	links := gen.AllLinks(nil, []string{"conc"})
+	links := gen.AllLinks(nil, []string{"conc", "guard"})
 	r := core.NewRNG(run.SeedV, "c06-"+tier)
 	nGen, procs, repeats := 2, 3, 2
 	gmps := []int{1, 4, 16}
